@@ -523,6 +523,63 @@ def codec_stream(ctx):
             ctx.nontrivial(("deep-target", x))
 
 
+def port_symbol_stream(ctx):
+    """port sizes written in terms of ANOTHER port's size variable (`#in_0`, `2*#in_0 + 1`, …): such a size is a declared size like any
+    other — export -> validate -> import must give back the very same routine (the port variable of an unsized port `p` is `#p`
+    and is exported as an absent size; the variable of another port is not)"""
+    from bartiq import Routine
+    from qref import SchemaV1
+
+    rng = ctx.rng
+    base = ctx.seed * 1000003 + 10900000
+    for seed in range(base, base + ctx.n(120, 2500)):
+        spec = gen(seed, None)
+        case = pipeline.Case(seed, spec)
+        q = json.loads(json.dumps(case.qref))
+        touched = []
+
+        def edit(n, path=()):
+            ins = [p for p in n.get("ports", []) if p["direction"] in ("input", "through")]
+            outs = [p for p in n.get("ports", []) if p["direction"] == "output"]
+            if ins and outs and rng.random() < 0.6:
+                src, dst = rng.choice(ins), rng.choice(outs)
+                shape = rng.choice(["#{}", "#{}", "2*#{} + 1", "#{} + 1"])
+                dst["size"] = shape.format(src["name"])
+                touched.append((".".join(path) or "root", dst["name"], dst["size"]))
+            for c in n.get("children", []):
+                edit(c, path + (c["name"],))
+        edit(q)
+        if not touched:
+            continue
+        ctx.stats["evaluations"] += 1
+        try:
+            r1 = Routine.from_qref(schema(q), B)
+        except Exception:
+            ctx.stats["port_symbol_docs_not_imported"] += 1
+            continue
+        try:
+            out = SchemaV1.model_validate(json.loads(r1.to_qref(B).model_dump_json()))
+            r2 = Routine.from_qref(out, B)
+        except Exception as e:
+            ctx.violation("failing-input", f"round trip of a routine with a port sized by another port's variable raised {type(e).__name__}", {"qref": q}, str(e)[:300], "the same routine")
+            return
+        ctx.stats["port_symbol_round_trips"] += 1
+        ctx.stats["port_symbol_shape_bare" if any(t[2].startswith("#") and "+" not in t[2] for t in touched) else "port_symbol_shape_compound"] += 1
+        if len(touched) >= 2:
+            ctx.nontrivial(("port-variable-sizes", len(touched)))
+        def sizes(r, path=()):
+            for n_, p_ in r.ports.items():
+                yield (".".join(path) or "root", n_), str(p_.size)
+            for cn, c in r.children.items():
+                yield from sizes(c, path + (cn,))
+        a, b = dict(sizes(r1)), dict(sizes(r2))
+        diff = {k: (a[k], b.get(k)) for k in a if a[k] != b.get(k)}
+        if diff:
+            ctx.violation("failing-input", "a routine with a port sized by another port's variable is not read back as written",
+                          {"qref": q, "ports_edited": touched}, {"port sizes (written, read back)": {f"{k[0]}:{k[1]}": v for k, v in diff.items()}}, "the same port sizes")
+            return
+
+
 def run(ctx, widen=False):
     n = ctx.n(300, 8000) * (3 if widen else 1)
     ctx.rule = ("routine trees with repetitions of all five kinds (70% symbolic parameters), deep links, locals; export -> validate -> import for the uncompiled routine and "
@@ -531,6 +588,7 @@ def run(ctx, widen=False):
     corpus(ctx)
     field_stream(ctx)
     codec_stream(ctx)
+    port_symbol_stream(ctx)
     base = ctx.seed * 1000003 + 10500000
     pipeline.run_stream(ctx, __name__, range(base, base + n), use_model=False)
 
